@@ -8,13 +8,14 @@ pub mod c05;
 pub mod c07;
 pub mod c08;
 pub mod c09;
+pub mod c10;
 pub mod c11;
 pub mod c12;
 
 use crate::prop::PropDef;
 
 pub fn all() -> Vec<&'static PropDef> {
-	vec![&c02::DEF, &c03::DEF, &c05::DEF, &c07::DEF, &c08::DEF, &c09::DEF, &c11::DEF, &c12::DEF]
+	vec![&c02::DEF, &c03::DEF, &c05::DEF, &c07::DEF, &c08::DEF, &c09::DEF, &c10::DEF, &c11::DEF, &c12::DEF]
 }
 
 pub fn find(id: &str) -> Option<&'static PropDef> {
